@@ -183,14 +183,24 @@ func (e *Enc) structAddr(a Addr) (T, bool) {
 
 func (e *Enc) elemAddr(base, i T) T {
 	f := e.s.DeclareFun("elemaddr", []string{SInt, SInt}, SInt)
-	if !e.s.declSet["elemaddr-ax"] {
-		e.s.declSet["elemaddr-ax"] = true
-		g := e.s.DeclareFun("elemidx", []string{SInt}, SInt)
-		h := e.s.DeclareFun("elembase", []string{SInt}, SInt)
-		// elemaddr is injective and never nil (quantified once, with a trigger)
-		e.s.decls = append(e.s.decls, fmt.Sprintf("(assert (forall ((|eb| Int) (|ei| Int)) (! (and (= (%s (%s |eb| |ei|)) |ei|) (= (%s (%s |eb| |ei|)) |eb|) (not (= (%s |eb| |ei|) 0))) :pattern ((%s |eb| |ei|)))))", g, f, h, f, f, f))
+	g := e.s.DeclareFun("elemidx", []string{SInt}, SInt)
+	h := e.s.DeclareFun("elembase", []string{SInt}, SInt)
+	t := T{"(" + f + " " + base.S + " " + i.S + ")", SInt}
+	if strings.Contains(t.S, "bv!") || strings.Contains(t.S, "|qh|") {
+		// under a binder: injectivity as a quantified background axiom (with a trigger)
+		if !e.s.declSet["elemaddr-ax"] {
+			e.s.declSet["elemaddr-ax"] = true
+			e.s.decls = append(e.s.decls, fmt.Sprintf("(assert (forall ((|eb| Int) (|ei| Int)) (! (and (= (%s (%s |eb| |ei|)) |ei|) (= (%s (%s |eb| |ei|)) |eb|) (not (= (%s |eb| |ei|) 0))) :pattern ((%s |eb| |ei|)))))", g, f, h, f, f, f))
+		}
+		return t
 	}
-	return T{"(" + f + " " + base.S + " " + i.S + ")", SInt}
+	// ground use: instantiate injectivity for this term (keeps queries quantifier-free)
+	k := "elemaddr-ax:" + t.S
+	if !e.rangeSeen[k] {
+		e.rangeSeen[k] = true
+		e.s.Assume(And(Eq(App(SInt, g, t), i), Eq(App(SInt, h, t), base), Not(Eq(t, IntLit(0)))))
+	}
+	return t
 }
 
 // fieldAddr computes &x.f for a pointer-to-struct address.
